@@ -29,6 +29,27 @@ CLAIMED['C19'] = dict(
          'code-point order; exposition body is an opaque parameter here (C03 covers it); extractor; sampling correspondence.',
     ref='DESIGN.md 5 C19')
 
+CLAIMED['C17'] = dict(
+    text='Theorems over ALL header strings (every string is the rendering of an item list: grammar_total), all query strings, methods and both '
+         'compression settings: OpenMetrics is chosen iff some listed media type equals application/openmetrics-text (om_iff_lists), gzip iff enabled and '
+         'a coding equals gzip up to ASCII case incl. the two Unicode characters whose lower() is ASCII (gzip_iff), Content-Type matches the body format, '
+         'body = that format\'s exposition of the registry restricted to name[] (body_is_restricted_exposition), WSGI = ASGI = MetricsHandler on every GET '
+         '(frontends_agree, wsgi_asgi_agree), OPTIONS/405 without collecting. Literals, comparison operators and per-front-end parameter extraction are '
+         're-extracted from exposition.py/asgi.py each run; the three real front-ends are driven in-process on ~3.5·10^3 requests (quick) with an independent oracle.',
+    note='Trusted: Lean kernel; parse_qs, gzip (abstract injective function), urlparse(path+?+q).query == q and latin-1 decode laws (re-checked per case); '
+         'wsgiref/http.server/ASGI servers themselves are outside the model; repeated Accept field lines are out of scope (documented).',
+    ref='DESIGN.md 5 C17')
+CLAIMED['C18'] = dict(
+    text='The effect skeleton of write_to_textfile (open tmp, generate, encode, write pieces, close, rename; handler: caught class, remove tmp, re-raise; '
+         'tmp name parts) is re-extracted from the AST each run and interpreted by the model. Theorems for all registries, all write splits/flush choices, '
+         'all fault positions and exception classes, all crash prefixes and all interleavings of two writers: target is always old or complete new '
+         '(target_always_old_or_new, crash_leaves_target_intact, two_writers_never_partial), a raising call leaves target = old, no tmp, same exception '
+         '(failure_is_clean), success installs new, distinct (pid,tid) give distinct tmp names (tmp_names_distinct), two writers each complete. The real '
+         'function is run with every single fault at every I/O step and collector, a reader snapshot at every cut, and all 924 interleavings of two real threads.',
+    note='Trusted: Lean kernel; rename(2) atomicity and buffered-writer behaviour (modelled both flush-at-write and flush-at-close); single-fault model; '
+         'BaseException that is not an Exception (KeyboardInterrupt from a collector) leaves tmp behind — outside the stated fault classes, proved as a documented limit.',
+    ref='DESIGN.md 5 C18')
+
 PENDING_REASON = 'not claimed yet: model/theorems for this property are not built at this commit (work order in DESIGN.md 8); no other technique is substituted'
 
 
